@@ -212,3 +212,7 @@ func init() {
 func init() {
 	claim("C14", "T1", "T2", "T3", "T5", "V4", "O1", "N7", "Q1", "Q2")
 }
+
+func init() {
+	claim("C18", "J2", "J3", "J4", "N7", "P1")
+}
